@@ -66,6 +66,13 @@ func (m *Monitor) Check(w *World, pre raft.VNode, op Op, post raft.VNode) *Bad {
 			return &Bad{"C01", fmt.Sprintf("a vote reply of the election of term %d (from node %d) was counted in the election of term %d", op.Elect, op.Src, pre.Term)}
 		}
 	}
+	// C06/C10: a follower that stored new entries flushes them before it acknowledges (what it acknowledged
+	// survives a crash)
+	if op.Kind == "append" && post.RpcReply != nil && post.RpcReply.Result == 1 && post.LastLogIndex > pre.LastLogIndex {
+		if post.Log.Flushed < post.LastLogIndex {
+			return &Bad{"C06/C10", fmt.Sprintf("follower acknowledged entries up to %d but its log is flushed only up to %d", post.LastLogIndex, post.Log.Flushed)}
+		}
+	}
 	// C15: shutdown completes every pending task
 	if op.Kind == "shutdown" && w.Node != nil && w.Node.Panic == "" {
 		if ids := w.Node.PendingTasks(); len(ids) > 0 {
@@ -152,7 +159,7 @@ func (m *Monitor) checkInfo(w *World, pre raft.VNode, op Op, post raft.VNode) *B
 	// "every configuration adopted" refers to)
 	want, _ := newestConfigAtOrBelow(&post, post.LastLogIndex)
 	if want.Index != post.Configs.Latest.Index || (want.Index > 0 && fmt.Sprint(want.Nodes) != fmt.Sprint(post.Configs.Latest.Nodes)) {
-		return &Bad{"C19/C08", fmt.Sprintf("latest configuration (index %d) is not the newest configuration entry in log/snapshot (index %d)", post.Configs.Latest.Index, want.Index)}
+		return &Bad{"C19/C08/C12", fmt.Sprintf("latest configuration (index %d) is not the newest configuration entry in log/snapshot (index %d)", post.Configs.Latest.Index, want.Index)}
 	}
 	return nil
 }
@@ -260,6 +267,11 @@ func (m *Monitor) checkObs(w *World, pre raft.VNode, op Op, post raft.VNode) *Ba
 			}
 			if o.CommitIndex < o.StartIndex {
 				return &Bad{"C08", fmt.Sprintf("configuration appended at %d before the leader committed an entry of its term (commit %d < start %d)", o.Entry.Index, o.CommitIndex, o.StartIndex)}
+			}
+			// the same judged from the log itself, not from the leader's own bookkeeping: the entry at the commit
+			// index is of the leader's term (a leader commits own-term entries only, and only those count)
+			if t, ok := termAt(&post, o.CommitIndex); ok && o.CommitIndex > 0 && t != o.Term && o.Entry.Term == o.Term {
+				return &Bad{"C08", fmt.Sprintf("leader of term %d appended configuration at %d while its commit index %d holds an entry of term %d: no entry of its own term is committed yet", o.Term, o.Entry.Index, o.CommitIndex, t)}
 			}
 			if o.Transfer {
 				return &Bad{"C16", fmt.Sprintf("configuration appended at %d during leadership transfer", o.Entry.Index)}
